@@ -811,6 +811,37 @@ impl Callbacks for Dump {
                                 }
                             }
                         }
+                        ConstValue::Indirect { alloc_id, offset } if int_struct_array_elem(tcx, ty).is_some() => {
+                            // `const X: [Range<u64>; N] = [a..b, ..]`: per element the integer fields in declaration order
+                            let (stride, fields, n) = int_struct_array_elem(tcx, ty).unwrap();
+                            if let mir::interpret::GlobalAlloc::Memory(mem) = tcx.global_alloc(alloc_id) {
+                                let a = mem.inner();
+                                let start = offset.bytes() as usize;
+                                let end = start + stride * n;
+                                if end <= a.len() {
+                                    let bytes = a.inspect_with_uninit_and_ptr_outside_interpreter(start..end);
+                                    let mut rows = Vec::new();
+                                    for i in 0..n {
+                                        let mut row = Vec::new();
+                                        for (off, esz, signed) in fields.iter().copied() {
+                                            let base = i * stride + off;
+                                            let mut v: u128 = 0;
+                                            for (k, b) in bytes[base..base + esz].iter().enumerate() {
+                                                v |= (*b as u128) << (8 * k);
+                                            }
+                                            let iv: i128 = if signed && esz < 16 && (v >> (8 * esz - 1)) & 1 == 1 {
+                                                (v as i128) - (1i128 << (8 * esz))
+                                            } else {
+                                                v as i128
+                                            };
+                                            row.push(J::Int(iv));
+                                        }
+                                        rows.push(J::Arr(row));
+                                    }
+                                    o.push(("arr2", J::Arr(rows)));
+                                }
+                            }
+                        }
                         ConstValue::Slice { .. } | ConstValue::Indirect { .. } if is_str_ref(ty) => {
                             if let Some(bytes) = cv.try_get_slice_bytes_for_diagnostics(tcx) {
                                 if let Ok(s) = std::str::from_utf8(bytes) {
@@ -860,6 +891,38 @@ fn int_array_elem<'tcx>(tcx: TyCtxt<'tcx>, ty: Ty<'tcx>) -> Option<(usize, bool,
         };
         if n <= 4096 {
             return Some((sz, signed, n as usize));
+        }
+    }
+    None
+}
+
+/// (element stride, [(field offset, byte size, signed)] in declaration order, length) of `[S; LEN]` where S is a
+/// non-generic-after-substitution struct whose fields are all primitive integers (e.g. `Range<u64>`)
+fn int_struct_array_elem<'tcx>(tcx: TyCtxt<'tcx>, ty: Ty<'tcx>) -> Option<(usize, Vec<(usize, usize, bool)>, usize)> {
+    if let ty::Array(elem, len) = ty.kind() {
+        let n = len.try_to_target_usize(tcx)?;
+        if n > 4096 {
+            return None;
+        }
+        if let ty::Adt(adt, args) = elem.kind() {
+            if !adt.is_struct() || elem.has_param() {
+                return None;
+            }
+            let layout = tcx.layout_of(TypingEnv::fully_monomorphized().as_query_input(*elem)).ok()?;
+            let mut fields = Vec::new();
+            for (i, f) in adt.non_enum_variant().fields.iter().enumerate() {
+                let fty = f.ty(tcx, args);
+                let (sz, signed) = match fty.kind() {
+                    ty::Int(i) => (i.bit_width().unwrap_or(64) as usize / 8, true),
+                    ty::Uint(u) => (u.bit_width().unwrap_or(64) as usize / 8, false),
+                    _ => return None,
+                };
+                fields.push((layout.fields.offset(i).bytes() as usize, sz, signed));
+            }
+            if fields.is_empty() {
+                return None;
+            }
+            return Some((layout.size.bytes() as usize, fields, n as usize));
         }
     }
     None
